@@ -1060,6 +1060,14 @@ def _round(ex, args, kwargs, fr):
     v = args[0]
     if is_conc(v.v):
         return VInt(round(v.v)) if len(args) == 1 else VFloat(round(v.v, args[1].v))
+    nd = args[1] if len(args) > 1 else kwargs.get("ndigits")
+    if isinstance(v, (VFloat, VInt)) and (nd is None or isinstance(nd, VNone) or (isinstance(nd, VInt) and is_conc(nd.v))) and ex.cfg.float_mode != "fp":
+        # round(x[, n]): the nearest multiple of 10**-n, ties to even (real mode: exact; CPython rounds the decimal representation correctly)
+        from . import arrays as A
+        r = A._round(ex, [v if isinstance(v, VFloat) else VFloat(to_real(v)), VInt(0 if nd is None or isinstance(nd, VNone) else int(nd.v))], {}, fr)
+        if nd is None or isinstance(nd, VNone):
+            return VInt(z3.ToInt(to_real(r)))
+        return r if isinstance(v, VFloat) else v
     raise Unsupported("round of symbolic value")
 
 
